@@ -11,13 +11,6 @@ OMAP = OBJ('OpticalMap')
 SP = OBJ('SelectedPeak')
 MSG = OBJ('AlignmentResultRowMessage')
 
-getInitialAlignment = FunctionSpec(
-    file='src/correlation/optical_map.py', qualname='OpticalMap.getInitialAlignment',
-    params=dict(self=OMAP, reference=OMAP, sequenceGenerator=OBJ('SequenceGenerator'), minPeakDistance=INT, peaksCount=INT, reverseStrand=BOOL), returns=CORR,
-    trusted=True, serves=('C11', 'C06'),
-    note="ASSUMED (FFT correlation, normalisation, scipy find_peaks): the primary correlation of a query with one reference on one strand; only its type is used")
-
-
 def _gpc_log(which):
     def h(L):
         e = L._e
@@ -35,15 +28,23 @@ def _gpc_log(which):
     return h
 
 
+def _config_primary(C):
+    me = C.self
+    return [('primary_generator_and_peak_count_are_usable', z3.And(me.primaryGenerator.resolution >= 1, me.primaryGenerator.blurRadius >= 0, me.args.peaksCount >= 0))]
+
+
 def _gpc_ensures(C, res):
+    k = z3.Int('gpk')
+    about = ('every_yielded_correlation_is_about_this_query_and_this_reference_and_has_a_peak', forall(k, z3.Implies(rng(0, k, res.len), z3.And(
+        res[k].query.ref == C.queryMap.ref, res[k].reference.ref == C.referenceMap.ref, res[k].peaks.len >= 1)), [res.raw(k).t]))
     if not C.proving:
-        return []
+        return [about]
     F_ = C.F
     me = C.self
     k = z3.Int('gpk')
     same = lambda w: z3.And(F_['ref' + w] == C.referenceMap.ref, F_['gen' + w] == me.primaryGenerator.ref, F_['mpd' + w] == me.args.minPeakDistance,
                             F_['cnt' + w] == me.args.peaksCount, F_['plain' + w])
-    return [('both_strands_are_seeded_with_the_same_reference_generator_distance_and_count_and_nothing_else', z3.And(same('1'), same('2'))),
+    return [about, ('both_strands_are_seeded_with_the_same_reference_generator_distance_and_count_and_nothing_else', z3.And(same('1'), same('2'))),
             ('first_the_forward_strand_then_the_reverse_strand', z3.And(z3.Not(F_.rev1), F_.rev2)),
             ('yields_the_forward_result_then_the_reverse_result_each_only_if_it_has_peaks', z3.And(
                 res.len <= 2, forall(k, z3.Implies(rng(0, k, res.len), z3.Or(res.raw(k).t == F_.res1, res.raw(k).t == F_.res2)), [res.raw(k).t]),
@@ -53,7 +54,7 @@ def _gpc_ensures(C, res):
 _r0 = lambda C: z3.Const('gpc_none', Ref)
 getPrimaryCorrelations = FunctionSpec(
     file=F, qualname='_WorkflowCoordinator.__getPrimaryCorrelations', params=dict(self=WC, referenceMap=OMAP, queryMap=OMAP),
-    yields=CORR, ensures=_gpc_ensures, serves=('C07', 'C11', 'C06'),
+    yields=CORR, requires=_config_primary, ensures=_gpc_ensures, class_invariants=True, serves=('C07', 'C11', 'C06', 'C02'),
     ghost={n + w: (lambda C: z3.Const('gpc_none', Ref)) if n in ('ref', 'gen', 'res') else ((lambda C: z3.IntVal(-1)) if n in ('mpd', 'cnt') else (lambda C: z3.BoolVal(False)))
            for n in ('ref', 'gen', 'mpd', 'cnt', 'plain', 'rev', 'res') for w in ('1', '2')},
     ghost_at={'call:getInitialAlignment#0': _gpc_log('1'), 'call:getInitialAlignment#1': _gpc_log('2')},
@@ -61,15 +62,63 @@ getPrimaryCorrelations = FunctionSpec(
          "peaksCount and no further argument (the strands are treated alike - what C11 needs from this glue); each result is passed on only if it has peaks, "
          "forward first. The correlation itself (getInitialAlignment) is an assumed contract")
 
+def _config_secondary(C):
+    me = C.self
+    return [('secondary_generator_is_usable', z3.And(me.secondaryGenerator.resolution >= 1, me.secondaryGenerator.blurRadius >= 0))]
+
+
+def _gsc_log(L):
+    a = L.callargs
+    L.set('rf_peak', L._e.num(a[0]))
+    L.set('rf_gen', a[1].t)
+    L.set('rf_margin', L._e.num(a[2]))
+    L.set('rf_thr', L._e.num(a[3]))
+
+
+def _gsc_ensures(C, res):
+    pc, sc = res
+    sp = C.selectedPeak
+    cl = [('the_seed_s_own_primary_correlation_is_refined_and_returned_with_the_result', pc.ref == sp.primaryCorrelation.ref),
+          ('the_refined_result_is_about_the_same_maps_and_strand', z3.And(sc.query.ref == sp.primaryCorrelation.query.ref,
+                                                                           sc.reference.ref == sp.primaryCorrelation.reference.ref,
+                                                                           sc.reverseStrand == sp.primaryCorrelation.reverseStrand))]
+    if C.proving:
+        F_, me = C.F, C.self
+        cl += [('refined_around_the_selected_peak_with_the_secondary_generator_and_the_configured_margin_and_threshold', z3.And(
+            F_.rf_peak == sp.peak.position, F_.rf_gen == me.secondaryGenerator.ref, F_.rf_margin == me.args.secondaryMargin,
+            F_.rf_thr == me.args.peakHeightThreshold))]
+    return cl
+
+
 getSecondaryCorrelation = FunctionSpec(
     file=F, qualname='_WorkflowCoordinator.__getSecondaryCorrelation', params=dict(self=WC, selectedPeak=SP, index=INT),
-    returns=TUPLE(CORR, OBJ('CorrelationResult')), trusted=True, serves=('C07',),
-    note="numerical refinement: outside the verifier; returns a pair")
+    returns=TUPLE(CORR, OBJ('CorrelationResult')), requires=_config_secondary, ensures=_gsc_ensures, class_invariants=True, serves=('C07', 'C06', 'C02'),
+    ghost={'rf_peak': lambda C: z3.RealVal(-1), 'rf_gen': lambda C: z3.Const('gsc_none', Ref), 'rf_margin': lambda C: z3.RealVal(-1), 'rf_thr': lambda C: z3.RealVal(-1)},
+    ghost_at={'call:refine#0': _gsc_log},
+    note="refinement of one selected seed: its OWN primary correlation is refined around the seed's position with the secondary generator and the configured margin "
+         "and threshold; the result is about the same maps and strand (InitialAlignment.refine, under contract; its preconditions follow from the map invariant)")
+
+
+def _gar_ensures(C, res):
+    row, msg = res
+    sc = C.sc
+    return [('the_candidate_row_names_the_maps_and_strand_of_the_refined_correlation', z3.And(
+        row.queryId == sc.query.moleculeId, row.referenceId == sc.reference.moleculeId, row.reverseStrand == sc.reverseStrand,
+        row.queryLength == sc.query.length, row.referenceLength == sc.reference.length))]
+
 
 getAlignmentRow = FunctionSpec(
     file=F, qualname='_WorkflowCoordinator.__getAlignmentRow', params=dict(self=WC, ic=CORR, sc=OBJ('CorrelationResult'), index=INT),
-    returns=TUPLE(ROW, MSG), trusted=True, serves=('C07',),
-    note="Aligner.align on the refined peaks: returns (row, message)")
+    returns=TUPLE(ROW, MSG), trusted=True, ensures=_gar_ensures, serves=('C07',),
+    note="ASSUMED at its call site in __align as far as EXCEPTION FREEDOM goes (Aligner.align is under a partial-correctness contract; bounded: C07); its "
+         "functional content - the row names the maps and strand of the refined correlation - is proved in the variant #checked")
+getAlignmentRowChecked = FunctionSpec(
+    file=F, qualname='_WorkflowCoordinator.__getAlignmentRow', variant='checked', params=dict(self=WC, ic=CORR, sc=OBJ('CorrelationResult'), index=INT),
+    returns=TUPLE(ROW, MSG), ensures=_gar_ensures, may_raise={'IndexError'}, class_invariants=True, verify_only=True, serves=('C07', 'C02', 'C04'),
+    requires=lambda C: [('configuration', z3.And(C.self.aligner.alignmentEngine.maxDistance >= 0, C.self.aligner.scorer.unmatchedPenalty <= 0,
+                                                 C.self.aligner.segmentsFactory.minScore > 0))],
+    note="(partial correctness) the candidate of one refined seed is Aligner.align on the refined correlation's reference, query, peaks and strand: the row names "
+         "those maps and that strand; Aligner.align's preconditions follow from the map invariant and the configuration")
 
 dispatch = FunctionSpec(
     file='src/extensions/dispatcher.py', qualname='Dispatcher.dispatch', params=dict(self=OBJ('Dispatcher'), message=OBJ('MultipleAlignmentResultRowsMessage', 'InitialAlignmentMessage', 'CorrelationResultMessage', 'AlignmentResultRowMessage')),
@@ -90,12 +139,27 @@ getBestAlignment = FunctionSpec(
     ensures=_best_ensures, serves=('C05', 'C07'),
     note="the candidate of maximal confidence (None for an empty candidate list)")
 
+ALIGNREF = z3.Function('row_reference_index', Ref, z3.IntSort())
+
+
+def _row_names_its_maps(C, res):
+    R = C.referenceMaps
+    kk = z3.Int('ark')
+    if C.proving:
+        named = z3.Exists([kk], z3.And(0 <= kk, kk < R.len, R[kk].moleculeId == res.val.referenceId))
+    else:
+        w = ALIGNREF(res.val.ref)
+        named = z3.And(0 <= w, w < R.len, R[w].moleculeId == res.val.referenceId)
+    return ('the_record_names_this_query_and_one_of_the_references', z3.Implies(z3.Not(res.none), z3.And(res.val.queryId == C.queryMap.moleculeId, named)))
+
+
 def _align_ensures(C, res):
     if not (C.has('F') and C.F.has('bestPrimaryCorrelationPeaks')):
-        return []
+        return [_row_names_its_maps(C, res)]
     Fv = C.F
     seeds, sec, cand = Fv.bestPrimaryCorrelationPeaks, Fv.secondaryCorrelations, Fv.rowsWithMessages
-    cl = [('every_selected_seed_is_refined_and_aligned_into_one_candidate', z3.And(sec.len == seeds.len, cand.len == seeds.len)),
+    cl = [_row_names_its_maps(C, res),
+          ('every_selected_seed_is_refined_and_aligned_into_one_candidate', z3.And(sec.len == seeds.len, cand.len == seeds.len)),
           ('at_most_peaksCount_seeds', seeds.len <= C.self.peaksSelector.count),
           ('no_record_exactly_when_no_seed_was_selected', res.none == (seeds.len == 0))]
     if Fv.has('alignmentResultRows'):
@@ -110,31 +174,45 @@ def _align_ensures(C, res):
 
 align = FunctionSpec(
     file=F, qualname='_WorkflowCoordinator.__align', params=dict(self=WC, referenceMaps=LIST(OMAP), queryMap=OMAP), returns=OPT(ROW),
-    requires=lambda C: [('peak_count_nonnegative', C.self.peaksSelector.count >= 0)],
-    ensures=lambda C, res: _align_ensures(C, res),
+    requires=lambda C: [('peak_count_nonnegative', C.self.peaksSelector.count >= 0)] + _config_primary(C) + _config_secondary(C),
+    ensures=lambda C, res: _align_ensures(C, res), class_invariants=True,
     serves=('C07', 'C05'),
     note="exception-freedom of the per-query glue (in particular the unpacking of zip(*rows) needs at least one candidate row); every selected seed - at most "
          "peaksCount, the highest-scoring ones - is refined and aligned into exactly one candidate, and the result is a candidate of maximal confidence (None "
          "exactly when no seed was selected)",
 )
 
-SPECS = [getInitialAlignment, getPrimaryCorrelations, getSecondaryCorrelation, getAlignmentRow, dispatch, getBestAlignment, align]
+SPECS = [getPrimaryCorrelations, getSecondaryCorrelation, getAlignmentRow, getAlignmentRowChecked, dispatch, getBestAlignment, align]
 
 
 # ------------------------------------------------------------------ _WorkflowCoordinator.execute (one work item per query, ordered map, filter)
+EXQ = z3.Function('row_query_index', z3.ArraySort(z3.IntSort(), Ref), z3.IntSort(), z3.IntSort())
+
+
 def _exec_ensures(C, res):
-    k = z3.Int('exk')
-    Q = C.queryMaps
+    k, k2, kk = z3.Int('exk'), z3.Int('exk2'), z3.Int('exr')
+    Q, R = C.queryMaps, C.referenceMaps
+    if C.proving:
+        q_of = C.note('filter_log')[-1]['idx']           # result row k comes from work item idx(k) = query idx(k)
+        ref_named = lambda k: z3.Exists([kk], z3.And(0 <= kk, kk < R.len, R[kk].moleculeId == res[k].referenceId))
+    else:
+        q_of = lambda k: EXQ(res.v.arrs[0], k)
+        ref_named = lambda k: z3.And(0 <= ALIGNREF(res.raw(k).t), ALIGNREF(res.raw(k).t) < R.len, R[ALIGNREF(res.raw(k).t)].moleculeId == res[k].referenceId)
+    pat = {} if C.proving else dict(patterns=[res.raw(k).t])
     cl = [('at_most_one_row_per_query', res.len <= Q.len),
-          ('every_returned_row_has_at_least_one_pair', forall(k, z3.Implies(rng(0, k, res.len), res[k].alignedPairs.len > 0), [res.raw(k).t]))]
+          ('every_returned_row_has_at_least_one_pair', forall(k, z3.Implies(rng(0, k, res.len), res[k].alignedPairs.len > 0), [res.raw(k).t])),
+          ('every_row_names_one_of_the_queries_and_one_of_the_references', z3.ForAll([k], z3.Implies(z3.And(0 <= k, k < res.len), z3.And(
+              0 <= q_of(k), q_of(k) < Q.len, res[k].queryId == Q[q_of(k)].moleculeId, ref_named(k))), **pat)),
+          ('rows_come_in_the_order_of_the_queries_each_query_at_most_once', z3.ForAll([k, k2], z3.Implies(z3.And(0 <= k, k < k2, k2 < res.len), q_of(k) < q_of(k2)),
+                                                                                   **({} if C.proving else dict(patterns=[MP(q_of(k), q_of(k2))]))))]
     return cl
 
 
 execute = FunctionSpec(
     file=F, qualname='_WorkflowCoordinator.execute', params=dict(self=WC, referenceMaps=LIST(OMAP), queryMaps=LIST(OMAP)), returns=LIST(ROW),
     requires=lambda C: [('peak_count_nonnegative', C.self.peaksSelector.count >= 0),
-                        ('cpus_option_absent_or_positive', z3.Or(C.self.args.numberOfCpus.none, C.self.args.numberOfCpus.val >= 1))],
-    ensures=_exec_ensures, serves=('C07', 'C05', 'C09', 'C10'),
+                        ('cpus_option_absent_or_positive', z3.Or(C.self.args.numberOfCpus.none, C.self.args.numberOfCpus.val >= 1))] + _config_primary(C) + _config_secondary(C),
+    ensures=_exec_ensures, class_invariants=True, serves=('C07', 'C05', 'C09', 'C10', 'C02'),
     note="one work item (referenceMaps, q) per query, mapped in order through __align by p_imap (assumed ordered for every worker count; its precondition - "
          "worker count None or >= 1 - is an obligation here), rows that are None or have no pair are dropped: at most one row per query, each with a pair")
 
